@@ -46,7 +46,9 @@ def generate_yaml(seed, tier, st):
             "situation": sit,
             "inputs": [i for i in inputs if i[1] != "ETERNITY" or True],
             "period": pick(ir, ["2018-01", "2018-02", "2018"]),
-            "margin": weighted(ir, [(None, 3), (["abs", pick(ir, [0.5, 1.0, 2.0])], 4), (["rel", pick(ir, [0.5, 0.25])], 3)]),
+            "margin": weighted(ir, [(None, 3), (["abs", pick(ir, [0.5, 1.0, 2.0])], 3), (["rel", pick(ir, [0.5, 0.25])], 2),
+                                    (["abs", pick(ir, [0.5, 1.0, 2.0]), {v["name"]: pick(ir, [0, 0, 0.25, 4.0]) for v in world["variables"] if chance(ir, 0.5)}], 2),
+                                    (["rel", pick(ir, [0.5, 0.25]), {v["name"]: pick(ir, [0, 0, 0.125]) for v in world["variables"] if chance(ir, 0.5)}], 1.5)]),
             "reforms": [],
             "extensions": [],
             "outputs": [],
@@ -121,8 +123,20 @@ def render(spec, x):
     raise ValueError(t)
 
 
-def place_value(spec, actual, place, margin, sign):
+def place_value(spec, actual, place, margin, sign, default_margin=None):
     """(expected scalar, should_pass | None) for one entity; None = undecidable, skip."""
+    if margin is not None and margin[1] == 0:
+        # a margin of zero stated for this variable means exact equality - even when
+        # the default margin is wider: "beyond" lands inside the default on purpose
+        if spec["type"] in ("float", "int") and place == "beyond" and default_margin:
+            a = float(numpy.float32(actual))
+            if a != a or abs(a) == float("inf"):
+                return None, None
+            if margin[0] == "abs":
+                return a + sign * default_margin / 2, False
+            if a != 0:
+                return a * (1 + default_margin / 8), False
+        margin = None
     t = spec["type"]
     if t == "bool":
         # booleans are compared as the numbers 0 / 1: a flipped value differs by 1
@@ -261,6 +275,10 @@ def build_test(world: World, tbs, t):
         else:
             actual = [render(spec, arr[i]) for i in range(n)]
         margin = t["margin"]
+        default_margin = margin[1] if margin else None
+        if margin and len(margin) > 2:
+            # margins stated per variable, with a default for the others
+            margin = [margin[0], margin[2].get(var, margin[1])]
         exp, ok_all = [], True
         undecidable = False
         target = o.get("sign", 1)
@@ -269,7 +287,7 @@ def build_test(world: World, tbs, t):
             place = o["place"]
             if place == "beyond" and i != bad_index:
                 place = "at"  # one entity off is enough to fail
-            e, ok = place_value(spec, actual[i], place, margin, target)
+            e, ok = place_value(spec, actual[i], place, margin, target, default_margin)
             if ok is None:
                 undecidable = True
                 break
@@ -307,7 +325,10 @@ def build_test(world: World, tbs, t):
         return None
     item = {"name": t["name"], "period": t["period"], "input": doc, "output": output}
     if t["margin"]:
-        item["absolute_error_margin" if t["margin"][0] == "abs" else "relative_error_margin"] = t["margin"][1]
+        mg = t["margin"]
+        item["absolute_error_margin" if mg[0] == "abs" else "relative_error_margin"] = (
+            mg[1] if len(mg) == 2 else {"default": mg[1], **{k: v for k, v in mg[2].items()}}
+        )
     if t["reforms"]:
         item["reforms"] = t["reforms"] if len(t["reforms"]) > 1 else t["reforms"][0]
     if t["extensions"]:
